@@ -234,7 +234,20 @@ coap_delete_node_lkd(coap_queue_t *node) {
      * Need to remove out of context->sendqueue as added in by coap_wait_ack()
      */
     if (node->session->context->sendqueue) {
-      LL_DELETE(node->session->context->sendqueue, node);
+      /*
+       * The times in the queue are relative to the predecessor: if the node is
+       * still linked, its time has to be handed on to its successor (callers
+       * that have unlinked it themselves have done so already).
+       */
+      coap_queue_t **p = &node->session->context->sendqueue;
+
+      while (*p && *p != node)
+        p = &(*p)->next;
+      if (*p) {
+        *p = node->next;
+        if (node->next)
+          node->next->t += node->t;
+      }
     }
     coap_session_release_lkd(node->session);
   }
